@@ -279,7 +279,8 @@ def draw_invocation(rng: random.Random, design_fraction: float) -> dict:
     u = rng.random()
     if u < design_fraction:
         # reaches the output stage
-        mode = rng.choices(["clean", "io_fault", "convert_idf", "outdir_is_file", "valid_edit"], [0.2, 0.55, 0.1, 0.05, 0.1])[0]
+        mode = rng.choices(["clean", "io_fault", "convert_idf", "outdir_is_file", "valid_edit", "stale_outdir"],
+                           [0.15, 0.5, 0.1, 0.05, 0.1, 0.1])[0]
         inv["kind"] = "design"
         if mode == "io_fault":
             kind = rng.choice(["mkdir", "open_w", "open_w", "write", "write", "write", "close", "close"])
@@ -301,6 +302,13 @@ def draw_invocation(rng: random.Random, design_fraction: float) -> dict:
                                      "errno": errno.ENOSPC, "partial": True, "frac": 0.5, "phase": "convert"}]
         elif mode == "outdir_is_file":
             inv["flags"] = "outdir_is_file"
+        elif mode == "stale_outdir":
+            # the output directory already holds the six files of an earlier, different run (optionally plus an I/O fault)
+            inv["stale_outdir"] = True
+            if rng.random() < 0.5:
+                kind = rng.choice(["open_w", "write", "close"])
+                inv["io_faults"] = [{"kind": kind, "nth": rng.randint(1, 6) if kind != "write" else rng.choice([1, 2, rng.randint(3, 9000)]),
+                                     "errno": errno.ENOSPC, "partial": True, "frac": round(rng.random(), 3)}]
         elif mode == "valid_edit":
             inv["input_fault"] = {"class": "valid_edit"}
         return inv
@@ -339,6 +347,13 @@ def _complete_outputs(outdir: Path, n_loads=8760):
         nbh = summ["ghe_system"]["number_of_boreholes"]
     except Exception as e:  # noqa: BLE001
         return [f"torn:SimulationSummary.json ({type(e).__name__})"]
+    if summ.get("stale"):
+        probs.append("stale:SimulationSummary.json")
+    for name in OUTPUT_FILES:
+        if not name.endswith(".json") and (outdir / name).read_text()[:5].lower().startswith("stale"):
+            probs.append(f"stale:{name}")
+    if probs:
+        return probs
     rows = list(csv.reader((outdir / "Loadings.csv").open(newline="")))
     if len(rows) != n_loads + 1 or any(len(r) != 5 for r in rows):
         probs.append(f"torn:Loadings.csv rows={len(rows)}")
@@ -458,6 +473,15 @@ def _one_invocation(job, j, inv, rootp: Path, base_text, base_inst, catalogue, m
     else:
         argv = [str(in_path), str(outdir)]
         expect_files = True
+        if inv.get("stale_outdir"):
+            os.mkdir(outdir)
+            for name in OUTPUT_FILES:
+                if name.endswith(".json"):
+                    (outdir / name).write_text(json.dumps({"ghe_system": {"number_of_boreholes": 987654}, "stale": True}))
+                elif name.endswith(".txt"):
+                    (outdir / name).write_text("STALE SUMMARY\nMonthly Temperature Summary\n" + "*" * 100 + "\n")
+                else:
+                    (outdir / name).write_text("stale,stale\n" * 9000)
     shim = seams.FileShim(str(rundir), [f for f in inv["io_faults"] if f.get("phase") != "convert"])
     if swap is not None:
         shim.read_hooks["input.json"] = lambda n, _s=swap: _s if n == 2 else None
